@@ -290,10 +290,31 @@ pub fn judge_faulted(ex: &Exec) -> Vec<(String, String)> {
     }
 }
 
-/// Violations are grouped by class, panics additionally by message and source location.
+/// Violations are grouped by class, panics additionally by source location and by the message with every
+/// input-specific part (digits, quoted text) removed.
 pub fn group_key(class: &str, detail: &str) -> String {
     if class.starts_with("panic") {
-        format!("{class}: {detail}")
+        let (msg, loc) = match detail.rsplit_once(" @ ") {
+            Some((m, l)) => (m, l),
+            None => (detail, ""),
+        };
+        let mut norm = String::new();
+        let mut quoted = false;
+        for ch in msg.chars() {
+            match ch {
+                '`' | '\'' | '"' => {
+                    quoted = !quoted;
+                }
+                _ if quoted => {}
+                c if c.is_ascii_digit() => {}
+                c if c.is_control() => {}
+                c => norm.push(c),
+            }
+        }
+        let norm: String = norm.split_whitespace().take(8).collect::<Vec<_>>().join(" ");
+        // the location's file name only: scratch copies live under other directories
+        let loc = loc.rsplit('/').next().unwrap_or(loc);
+        format!("{class}: {norm} @ {loc}")
     } else {
         class.to_string()
     }
